@@ -60,6 +60,7 @@ type c01Engine struct {
 	srcs  map[string]string
 	cache bool
 	debug bool
+	idx   int // position among the engines of the history: decides how the security policy is set up
 }
 
 // ctx: the generated context, overlaid with the context of the corpus entry that takes part in this history (the same in
@@ -123,6 +124,8 @@ var c01Twins = [][]string{
 	{"{{ 'tag <b>x</b>'|striptags }}", "{{ 'tag <i>y</i>'|striptags }}", "{{ '<b>x</b>'|length }}"},
 	// a sandboxed include followed by plain renders that use filters outside the policy (per-render flags left in pooled objects)
 	{"[{% include 'sbx_part' sandboxed %}]", "{{ 'a b'|url_encode }}{{ [3, 1]|sort|join }}", "[{% include 'sbx_part' sandboxed %}]{{ 'x y'|url_encode }}", "{{ 'q'|upper }}{{ max(1, 2) }}"},
+	// sandboxed includes of partials that only some engines' policies allow
+	{"[{% include 'sbx_url' sandboxed %}]", "[{% include 'sbx_strip' sandboxed %}]", "[{% include 'sbx_upper' sandboxed %}]", "[{% include 'sbx_part' sandboxed %}]{{ 'a b'|url_encode }}", "{{ '<i>y</i>'|striptags }}{{ 'q'|upper }}"},
 	// names that differ only in letter case, or share a prefix / a length (string tables, interning, case folding)
 	{"{% set seedQty = 'MIXED' %}{% set seedqty = 'lower' %}[{{ seedqty }}]", "{% set seedQty = 'MIXED' %}{% set seedqty = 'lower' %}[{{ seedQty }}]", "{% set SEEDQTY = 'UPPER' %}[{{ SEEDQTY }}{{ seedqty }}]"},
 	{"{% macro Row(x) %}<R{{ x }}>{% endmacro %}{% macro row(x) %}<r{{ x }}>{% endmacro %}{{ row(1) }}", "{% macro Row(x) %}<R{{ x }}>{% endmacro %}{% macro row(x) %}<r{{ x }}>{% endmacro %}{{ Row(1) }}", "{% macro ROW(x) %}<ROW{{ x }}>{% endmacro %}{{ ROW(1) }}"},
@@ -147,6 +150,9 @@ func (p *c01) gen(seed uint64, idx int) *c01History {
 		h.srcs[k] = v
 	}
 	h.srcs["sbx_part"] = "{{ 'Part'|lower }}"
+	h.srcs["sbx_url"] = "{{ 'a b'|url_encode }}"
+	h.srcs["sbx_strip"] = "{{ '<b>x</b>'|striptags }}{{ max(1, 2) }}"
+	h.srcs["sbx_upper"] = "{{ 'up'|upper }}"
 	if r.P(1, 6) {
 		// a long template so that the second tokenizer and interning are in play
 		h.srcs["plain"] = strings.Repeat("<p>filler text with a few words</p>\n", 140) + h.srcs["plain"]
@@ -264,7 +270,7 @@ func newVersionSrc(name string, old string, n int) string {
 func (h *c01History) state(k int) []*c01Engine {
 	engs := make([]*c01Engine, h.nEng)
 	for i := range engs {
-		engs[i] = &c01Engine{srcs: map[string]string{}, cache: true}
+		engs[i] = &c01Engine{srcs: map[string]string{}, cache: true, idx: i}
 		for n, s := range h.srcs {
 			engs[i].srcs[n] = s
 		}
@@ -304,9 +310,20 @@ func c01NewEngine(st *c01Engine) (*twig.Engine, *twig.ArrayLoader) {
 	e.AddGlobal("glist", append(make([]interface{}, 0, 8), 3, 1, 2))
 	e.AddGlobal("gmap", map[string]interface{}{"b": 2, "a": 1, "list": []interface{}{"y", "x"}})
 	// every engine has a security policy (it only matters inside `include ... sandboxed`)
+	// (engine 0 extends the default policy in place, the way the documentation shows; engine 1 uses the default policy
+	// as it comes; engine 2 replaces the allow-lists: what one engine allows is no other engine's business)
 	pol := twig.NewDefaultSecurityPolicy()
-	pol.AllowedFilters = map[string]bool{"lower": true, "escape": true}
-	pol.AllowedFunctions = map[string]bool{}
+	switch st.idx {
+	case 0:
+		pol.AllowedFilters["url_encode"] = true
+		pol.AllowedFilters["striptags"] = true
+		pol.AllowedFunctions["boom"] = true
+		delete(pol.AllowedFilters, "upper")
+	case 1:
+	default:
+		pol.AllowedFilters = map[string]bool{"lower": true, "escape": true}
+		pol.AllowedFunctions = map[string]bool{}
+	}
 	e.EnableSandbox(pol)
 	e.SetCache(st.cache)
 	if st.debug {
@@ -379,6 +396,14 @@ func (p *c01) pristine(rec *core.Recorder, seed uint64, idx, k int) (c01Out, boo
 	return o, true
 }
 
+func firstDiff(a, b string) int {
+	i := 0
+	for i < len(a) && i < len(b) && a[i] == b[i] {
+		i++
+	}
+	return i
+}
+
 type failWriter struct{ left int }
 
 func (f *failWriter) Write(b []byte) (int, error) {
@@ -446,7 +471,7 @@ func (p *c01) Run(rec *core.Recorder, seed uint64, idx int, tier string) {
 				if old != fp {
 					// a reload / re-registration by the engine itself is legitimate only for `changed` names
 					rec.Violate("fingerprint", fmt.Sprintf("fingerprint:%s", h.ops[k].Kind),
-						fmt.Sprintf("cached template %q of engine %d was altered by operation %d (%s); node tree before %s… after %s…", name, ei, k, h.ops[k].Kind, core.Trunc(old, 160), core.Trunc(fp, 160)),
+						fmt.Sprintf("cached template %q of engine %d was altered by operation %d (%s); node tree differs from byte %d: before …%s… after …%s…", name, ei, k, h.ops[k].Kind, firstDiff(old, fp), core.Trunc(old[max(0, firstDiff(old, fp)-80):], 240), core.Trunc(fp[max(0, min(len(fp), firstDiff(old, fp))-80):], 240)),
 						caseInfo(k), "")
 					fps[ei][key] = fp
 					ok = false
